@@ -102,6 +102,10 @@ class Mod:
                 for t in st.targets:
                     if isinstance(t, ast.Name):
                         self.consts[t.id] = st.value
+                    elif isinstance(t, ast.Attribute) and isinstance(t.value, ast.Name) and t.value.id in self.classes \
+                            and t.attr not in self.classes[t.value.id].attrs and t.attr not in self.classes[t.value.id].methods:
+                        # `Class.attr = value` at module level, after the class: a class attribute bound late
+                        self.classes[t.value.id].attrs[t.attr] = st.value
             elif isinstance(st, ast.ImportFrom):
                 for a in st.names:
                     if a.name == "*":
